@@ -412,14 +412,17 @@ var historyRequests = []struct {
 	own                         bool // the client supplies its own Authorization
 	connect                     bool // a CONNECT (only through the upstream proxy)
 	reset                       bool // ... whose connection the upstream proxy resets as soon as it is established
+	https                       bool // absolute-form https:// target (the proxy itself speaks TLS to port 443); direct only
 }{
-	{"origin.test", "origin.test", "80", "origin.test", false, false, false},
-	{"origin.test:8080", "origin.test", "8080", "origin.test:8080", false, false, false},
-	{"other.test:8080", "other.test", "8080", "other.test:8080", false, false, false},
-	{"other.test", "other.test", "80", "other.test", false, false, false},
-	{"origin.test+own-authorization", "origin.test", "80", "origin.test", true, false, false},
-	{"CONNECT origin.test:443", "origin.test", "443", "origin.test:443", false, true, false},
-	{"CONNECT origin.test:443 (upstream resets the connection)", "origin.test", "443", "origin.test:443", false, true, true},
+	{"origin.test", "origin.test", "80", "origin.test", false, false, false, false},
+	{"origin.test:8080", "origin.test", "8080", "origin.test:8080", false, false, false, false},
+	{"other.test:8080", "other.test", "8080", "other.test:8080", false, false, false, false},
+	{"other.test", "other.test", "80", "other.test", false, false, false, false},
+	{"origin.test+own-authorization", "origin.test", "80", "origin.test", true, false, false, false},
+	{"CONNECT origin.test:443", "origin.test", "443", "origin.test:443", false, true, false, false},
+	{"CONNECT origin.test:443 (upstream resets the connection)", "origin.test", "443", "origin.test:443", false, true, true, false},
+	// the same host name without a port under the other scheme: the implied port differs (443, no entry)
+	{"https://origin.test", "origin.test", "443", "origin.test", false, false, false, true},
 }
 
 func historyScenario(x *explore.X, n int) {
@@ -428,7 +431,8 @@ func historyScenario(x *explore.X, n int) {
 	for i := 0; i < n; i++ {
 		seq = append(seq, x.ChooseFree(fmt.Sprintf("request-%d", i), len(historyRequests)))
 	}
-	opts := world.Options{}
+	pki := world.NewPKI("harness CA")
+	opts := world.Options{TransportCAPEM: pki.CAPEM}
 	for _, e := range historyTable {
 		opts.Credentials = append(opts.Credentials, e.String())
 	}
@@ -444,6 +448,7 @@ func historyScenario(x *explore.X, n int) {
 	for _, a := range []string{"up.test:8080", "origin.test:80", "origin.test:8080", "other.test:8080", "other.test:80"} {
 		hops[a], _ = w.Hop(a, nil)
 	}
+	hops["origin.test:443"], _ = w.Hop("origin.test:443", &tls.Config{Certificates: []tls.Certificate{pki.Leaf([]string{"origin.test"}, -time.Hour, time.Hour)}})
 	ownAz := "Basic " + base64.StdEncoding.EncodeToString([]byte(clientAuthz))
 	var names, out []string
 	for _, k := range seq {
@@ -499,7 +504,16 @@ func historyScenario(x *explore.X, n int) {
 		if rq.own {
 			extra = "Authorization: " + ownAz + "\r\n"
 		}
-		cl.Send([]byte("GET http://" + rq.authority + "/x HTTP/1.1\r\nHost: " + rq.authority + "\r\n" + extra + "\r\n"))
+		scheme := "http"
+		if rq.https {
+			if viaUp {
+				out = append(out, "n/a")
+				cl.Close()
+				continue
+			}
+			scheme = "https"
+		}
+		cl.Send([]byte("GET " + scheme + "://" + rq.authority + "/x HTTP/1.1\r\nHost: " + rq.authority + "\r\n" + extra + "\r\n"))
 		addr := net.JoinHostPort(rq.host, rq.port)
 		if viaUp {
 			addr = "up.test:8080"
@@ -563,7 +577,7 @@ func historyScenario(x *explore.X, n int) {
 
 func TestC06(t *testing.T) {
 	s := explore.NewSuite(t, "C06", "exploration",
-		"credential table = every subset of size <= 3 of 8 entries (exact host:port, *:port, host:*, *:*, other host, entries matching the upstream proxy) (93) x upstream(none, static URL with userinfo, static URL resolved through the table, PAC-selected) x target/kind(6: implicit/explicit port 80, CONNECT, inside MITM, other host) x client fields(12: Proxy-Authorization once/twice/nominated by Connection/mixed case, client Authorization Basic / Bearer / Digest / Negotiate / malformed Basic / lower-case scheme); deviation-bounded (D=2 quick) and full product table x upstream x target with client fields as the only bounded dimension (D=1 quick, unbounded thorough); every byte received by the origin, by the upstream proxy and inside the tunnel is searched for the base64 token of every credential, each occurrence must be where expectCreds allows, and expected credentials must be present; plus (concurrent-lookups, Engine T) the credentials matcher of one proxy asked by 2-3 connections at once about 4 targets (after 0-1 earlier lookups), credentials.go rebuilt with a scheduling point before every statement, every interleaving within 2 (quick) / 3 (thorough) preemptions: every lookup returns its own target's entry; plus (history) ONE proxy (with and without an upstream proxy whose credentials come from the table) and EVERY sequence of 2 (quick) / 4 (thorough) requests out of 7 (same host on two ports, another host on two ports, the client's own Authorization, a CONNECT through the upstream proxy, a CONNECT whose upstream connection is reset as soon as it is established): each request carries the credentials of its own target whatever was requested before")
+		"credential table = every subset of size <= 3 of 8 entries (exact host:port, *:port, host:*, *:*, other host, entries matching the upstream proxy) (93) x upstream(none, static URL with userinfo, static URL resolved through the table, PAC-selected) x target/kind(6: implicit/explicit port 80, CONNECT, inside MITM, other host) x client fields(12: Proxy-Authorization once/twice/nominated by Connection/mixed case, client Authorization Basic / Bearer / Digest / Negotiate / malformed Basic / lower-case scheme); deviation-bounded (D=2 quick) and full product table x upstream x target with client fields as the only bounded dimension (D=1 quick, unbounded thorough); every byte received by the origin, by the upstream proxy and inside the tunnel is searched for the base64 token of every credential, each occurrence must be where expectCreds allows, and expected credentials must be present; plus (concurrent-lookups, Engine T) the credentials matcher of one proxy asked by 2-3 connections at once about 4 targets (after 0-1 earlier lookups), credentials.go rebuilt with a scheduling point before every statement, every interleaving within 2 (quick) / 3 (thorough) preemptions: every lookup returns its own target's entry; plus (history) ONE proxy (with and without an upstream proxy whose credentials come from the table) and EVERY sequence of 2 (quick) / 4 (thorough) requests out of 8 (same host on two ports, another host on two ports, the client's own Authorization, a CONNECT through the upstream proxy, a CONNECT whose upstream connection is reset as soon as it is established, the same host name under https:// with the implied port 443): each request carries the credentials of its own target whatever was requested before")
 	s.Assume = []string{"secrets are searched in their Basic (base64) form and the harness terminates TLS at the scripted origin", "simnet owns every connection"}
 	s.Add(explore.Scenario{Name: "bounded", Remote: true, Tiers: []string{"quick"}, MaxDev: map[string]int{"quick": 2},
 		Run: func(x *explore.X) { world.Run(t, x, func() { scenario(x, false) }) }})
